@@ -177,6 +177,8 @@ pub fn shifted_run_sets() -> Vec<Vec<String>> {
         for shift in [0u32, 0x100, 0x1000, 0x10000, 0x20000, 0x100000] {
             let set: Vec<String> = (0..3).filter_map(|k| char::from_u32(base + shift + k)).map(|c| c.to_string()).collect();
             if set.len() == 3 {
+                // a class that contains only the first code point of the run (no range), and the run itself
+                v.push(vec![set[0].clone(), "!".to_string()]);
                 v.push(set);
             }
         }
